@@ -42,10 +42,6 @@ def fragmentAdmits (code : Str) : Option Str :=
       ((rest.head? == some ':' && fragTail rest.tail) || (rest.head?.any isSpace && fragColon rest.tail))
   then some kw else none
 
-/-- every whitespace character of the text (for `\s` or for `str.strip`) is a blank or a tab: no newline (a
-    backslash-continued control line), no form feed, no U+00A0 … -/
-def plainBlanks (t : Str) : Bool := t.all fun c => !(isSpace c || isPySpace c) || isBlank c
-
 /-! ### list facts -/
 
 theorem mem_takeWhile_p {p : Char → Bool} : ∀ {l : Str} {c : Char}, c ∈ l.takeWhile p → p c = true
@@ -121,69 +117,37 @@ theorem dropWhile_append_of_ne {p : Char → Bool} : ∀ (l m : Str) (c : Char) 
       obtain ⟨rfl, rfl⟩ := h
       rfl
 
-theorem plainBlanks_append {a b : Str} : plainBlanks (a ++ b) = (plainBlanks a && plainBlanks b) := by
-  simp [plainBlanks, List.all_append]
+/-- `str.strip()` and the regex class `\s` agree on what whitespace is (a side condition on the two regenerated
+    tables: should CPython ever tell them apart, this obligation breaks) -/
+theorem pySpace_eq_space : Generated.Unicode.isspaceRanges = Generated.Unicode.spaceRanges := by decide
 
-theorem plainBlanks_cons {c : Char} {b : Str} :
-    plainBlanks (c :: b) = ((!(isSpace c || isPySpace c) || isBlank c) && plainBlanks b) := by
-  simp [plainBlanks]
+theorem isPySpace_isSpace (c : Char) : isPySpace c = isSpace c := by
+  simp [isPySpace, isSpace, pySpace_eq_space]
 
-theorem plain_space_blank {t : Str} (h : plainBlanks t = true) : ∀ c ∈ t, isSpace c = isBlank c := by
-  intro c hc
-  have := (List.all_eq_true.mp h) c hc
-  cases hs : isSpace c <;> cases hb : isBlank c <;> simp_all [blank_isSpace]
+theorem all_dropWhile_nil {p : Char → Bool} : ∀ l : Str, l.dropWhile p = [] → l.all p = true
+  | [], _ => rfl
+  | c :: cs, h => by
+    simp only [List.dropWhile] at h
+    split at h
+    · rename_i hc; simp [hc, all_dropWhile_nil cs h]
+    · cases h
 
-theorem plain_pyspace_blank {t : Str} (h : plainBlanks t = true) : ∀ c ∈ t, isPySpace c = true → isBlank c = true := by
-  intro c hc hp
-  have := (List.all_eq_true.mp h) c hc
-  simp_all
-
-theorem plain_no_newline {t : Str} (h : plainBlanks t = true) : ∀ c ∈ t, (c != '\n') = true := by
-  intro c hc
-  have := (List.all_eq_true.mp h) c hc
-  by_cases e : c = '\n'
-  · subst e; revert this; decide
-  · simpa using e
-
-/-- under `plainBlanks`, what `PythonFragment` accepts after a colon the printer's `_re_indent` accepts too, with
-    the stripped trailing blanks put back -/
-theorem tailOk_of_fragTail (r tr : Str) (hr : plainBlanks r = true) (htr : tr.all isBlank = true)
-    (h : fragTail r = true) : tailOk (r ++ tr) = true := by
-  have e : r.dropWhile isSpace = r.dropWhile isBlank := dropWhile_congr r (plain_space_blank hr)
-  simp only [fragTail, e, Bool.or_eq_true, List.isEmpty_iff, beq_iff_eq] at h
+/-- what `PythonFragment` accepts after a colon, `_re_indent` accepts too, with the stripped trailing whitespace
+    put back -/
+theorem tailOk_of_fragTail (r tr : Str) (htr : tr.all isSpace = true) (h : fragTail r = true) :
+    tailOk (r ++ tr) = true := by
+  simp only [fragTail, Bool.or_eq_true, List.isEmpty_iff, beq_iff_eq] at h
   rcases h with h | h
-  · have : (r ++ tr).dropWhile isBlank = [] := by
-      have hall : r.all isBlank = true := by
-        clear e hr
-        induction r with
-        | nil => rfl
-        | cons c cs ih =>
-          simp only [List.dropWhile] at h
-          split at h
-          · rename_i hc; simp [hc, ih h]
-          · cases h
-      exact dropWhile_all _ (by simp [List.all_append, hall, htr])
-    simp [tailOk, this, endOk]
-  · cases hd : r.dropWhile isBlank with
+  · have : (r ++ tr).dropWhile isSpace = [] :=
+      dropWhile_all _ (by simp [List.all_append, all_dropWhile_nil r h, htr])
+    simp [tailOk, this]
+  · cases hd : r.dropWhile isSpace with
     | nil => rw [hd] at h; simp at h
     | cons c y =>
       rw [hd] at h
       simp only [List.head?_cons, Option.some.injEq] at h
       subst h
-      have e2 := dropWhile_append_of_ne r tr '#' y hd
-      have hy : ∀ d ∈ y ++ tr, (d != '\n') = true := by
-        intro d hdm
-        rcases List.mem_append.mp hdm with h1 | h1
-        · have : d ∈ r := by
-            have : d ∈ r.dropWhile isBlank := by rw [hd]; simp [h1]
-            exact (List.dropWhile_sublist _).subset this
-          exact plain_no_newline hr d this
-        · have hb := (List.all_eq_true.mp htr) d h1
-          by_cases e3 : d = '\n'
-          · subst e3; revert hb; decide
-          · simpa using e3
-      have : (y ++ tr).dropWhile (· != '\n') = [] := dropWhile_all _ (List.all_eq_true.mpr hy)
-      simp [tailOk, e2, this, endOk]
+      simp [tailOk, dropWhile_append_of_ne r tr '#' y hd]
 
 theorem startsWith_append (k x : Str) : startsWith (k ++ x) k = true := by
   induction k with
@@ -257,24 +221,20 @@ theorem fragKw_facts {kw : Str} (h : kw ∈ fragKws) :
   · exact ⟨.inr (by decide), 'e', "xcept".toList, rfl, by decide, by decide⟩
   · exact ⟨.inl (by decide), 'w', "ith".toList, rfl, by decide, by decide⟩
 
-theorem all_blank_of_pyspace {t l : Str} (hp : plainBlanks t = true) (hsub : ∀ c ∈ l, c ∈ t)
-    (hl : l.all isPySpace = true) : l.all isBlank = true := by
-  simp only [List.all_eq_true] at hl ⊢
-  intro c hc
-  exact plain_pyspace_blank hp c (hsub c hc) (hl c hc)
-
-theorem dropWhile_space_blanks (l x : Str) (hl : l.all isBlank = true) : (l ++ x).dropWhile isSpace = x.dropWhile isSpace := by
+theorem dropWhile_space_prefix (l x : Str) (hl : l.all isSpace = true) : (l ++ x).dropWhile isSpace = x.dropWhile isSpace := by
   induction l with
   | nil => rfl
   | cons c cs ih =>
     simp only [List.all_cons, Bool.and_eq_true] at hl
-    simp [blank_isSpace c hl.1, ih hl.2]
+    simp [hl.1, ih hl.2]
 
-/-- **What `PythonFragment` admits is a header for the printer** – for texts whose only whitespace characters
-    are blanks and tabs (`plainBlanks`). -/
-theorem fragment_headerOk_core (t kw : Str) (ha : fragmentAdmits t = some kw) (hp : plainBlanks t = true) :
-    HeaderOk t = true := by
+/-- **What `PythonFragment` admits is a header for the printer** – every admitted text. -/
+theorem fragment_headerOk_core (t kw : Str) (ha : fragmentAdmits t = some kw) : HeaderOk t = true := by
   obtain ⟨ld, tr, ht, hld, htr⟩ := strip_split t
+  have hlds : ld.all isSpace = true := by
+    simp only [List.all_eq_true] at hld ⊢; intro c hc; rw [← isPySpace_isSpace]; exact hld c hc
+  have htrs : tr.all isSpace = true := by
+    simp only [List.all_eq_true] at htr ⊢; intro c hc; rw [← isPySpace_isSpace]; exact htr c hc
   unfold fragmentAdmits at ha
   simp only at ha
   split at ha
@@ -288,7 +248,6 @@ theorem fragment_headerOk_core (t kw : Str) (ha : fragmentAdmits t = some kw) (h
   generalize (strip t).dropWhile isWord = rest at hcol hc
   rw [hc] at ht
   obtain ⟨hkw, c0, y, rfl, hs0, hh0⟩ := fragKw_facts hk
-  -- the colon
   have hsplit : ∃ a r, rest = a ++ ':' :: r ∧ fragTail r = true := by
     rcases hcol with ⟨h1, h2⟩ | ⟨_, h2⟩
     · cases rest with
@@ -302,24 +261,14 @@ theorem fragment_headerOk_core (t kw : Str) (ha : fragmentAdmits t = some kw) (h
       | nil => simp at e
       | cons d ds => exact ⟨d :: a, r, by simpa using e, hr⟩
   obtain ⟨a, r, rfl, hr⟩ := hsplit
-  have hmem : ∀ l : Str, (∀ c ∈ l, c ∈ ld ++ (c0 :: y ++ (a ++ ':' :: r)) ++ tr) → ∀ c ∈ l, c ∈ t := by
-    intro l h c hc; rw [ht]; exact h c hc
-  have hldb : ld.all isBlank = true := all_blank_of_pyspace hp (hmem ld (by intro c hc; simp [hc])) hld
-  have htrb : tr.all isBlank = true := all_blank_of_pyspace hp (hmem tr (by intro c hc; simp [hc])) htr
-  have hpr : plainBlanks r = true := by
-    rw [ht] at hp
-    simp only [plainBlanks_append, plainBlanks_cons, Bool.and_eq_true] at hp
-    exact hp.1.2.2.2.2
-  -- `_re_indent`
   have hi : reIndent t = true := by
     have : t = (ld ++ c0 :: y ++ a) ++ ':' :: (r ++ tr) := by rw [ht]; simp
     rw [this]
-    exact reIndent_of_split _ _ (tailOk_of_fragTail r tr hpr htrb hr)
-  -- the keyword tables
+    exact reIndent_of_split _ _ (tailOk_of_fragTail r tr htrs hr)
   have hl : lskip t = c0 :: y ++ (a ++ ':' :: r ++ tr) := by
     rw [ht]
     simp only [lskip, List.append_assoc]
-    rw [dropWhile_space_blanks ld _ hldb]
+    rw [dropWhile_space_prefix ld _ hlds]
     simp [hs0]
   have hsw : ∀ ks, c0 :: y ∈ ks → (firstKw (lskip t) ks).isSome = true := by
     intro ks hm
@@ -351,9 +300,9 @@ theorem fragment_headerOk_core (t kw : Str) (ha : fragmentAdmits t = some kw) (h
     cases ld with
     | nil => simpa [isComment] using hh0
     | cons d ds =>
-      simp only [List.all_cons, Bool.and_eq_true] at hldb
+      simp only [List.all_cons, Bool.and_eq_true] at hlds
       have : d ≠ '#' := by
-        intro e; rw [e] at hldb; exact absurd hldb.1 (by decide)
+        intro e; rw [e] at hlds; exact absurd hlds.1 (by decide)
       simpa [isComment] using this
   simp [HeaderOk, htx, hcm, ho]
 
